@@ -12,7 +12,7 @@ if len(sys.argv) <= 1:
 a = miragg.Agg("", src, mirsmt.Obligations())
 bad = 0
 # recipes that DO reproduce on the unchanged tree because they demonstrate a recorded known finding (known_findings.json)
-KNOWN = {"mirflow.replay_duplicate_names", "mirgen.replay_rule_name_collision"}
+KNOWN = {"mirflow.replay_duplicate_names", "mirgen.replay_rule_name_collision", "mirflow.replay_param_literal_kind"}
 recipes = []
 for mod in (mirblocks, mirflow, mirpaths, mirload, mirquery, mirorder, mirparse, mirgen):
     for name, f in inspect.getmembers(mod, inspect.isfunction):
